@@ -27,7 +27,7 @@ ASSUMPTIONS = [
     "a compact-form call may raise (unsplittable IRI, generate=False without prefix); if it answers, the answer must be valid now",
     "answers in <iri> form use no prefix and are accepted",
 ]
-PROBES = ["qname-after-rebind-of-its-namespace", "longer-namespace-bound-after-qname", "replace-on-taken-prefix", "override-false-on-bound-namespace", "second-handle-qname-after-first-handle-bind", "generated-prefix", "empty-prefix-bound", "prefix-collision-numbered", "listing-abandoned-half-way"]
+PROBES = ["bindings-in-sparql-client-store", "qname-after-rebind-of-its-namespace", "longer-namespace-bound-after-qname", "replace-on-taken-prefix", "override-false-on-bound-namespace", "second-handle-qname-after-first-handle-bind", "generated-prefix", "empty-prefix-bound", "prefix-collision-numbered", "listing-abandoned-half-way"]
 KNOWN_PREDICATES = {}
 
 NSS = ["http://ex.org/", "http://ex.org/a", "http://ex.org/a/", "http://ex.org/a#", "http://ex.org/a/b#", "http://ex.org/ab", "urn:x:", "http://other.org/v#"]
